@@ -54,6 +54,15 @@ def specs(tier):
                 ir = dict(irx)
                 ir['w'] = w
                 out.append(('R', ir))
+    # a stride of the multi-nonterminal family (rule-less / unproductive nonterminals, factors shared between the rules
+    # of one nonterminal, rules that are zero for some external values)
+    from checks.c01_sumproduct import family_b
+    for i, g in enumerate(family_b('quick')):
+        if i % (60 if tier == 'quick' else 12) == 7:
+            ir = dict(g)
+            ir['nl'] = {'T': 2}
+            ir['w'] = IR.generic_weights(ir, stride=5)
+            out.append(('B', ir))
     return out
 
 
